@@ -75,7 +75,7 @@ func (w *World) generate(p string) *checkResult {
 		fname := pk + "." + short
 		if c.Trusted {
 			res.trustedFns = append(res.trustedFns, fname)
-			if w.funcOf(n) == nil {
+			if w.funcOf(n) == nil && !w.interfaceMethodExists(n) {
 				res.failed = append(res.failed, &Obligation{Name: fname + "#bind", Kind: "bind", Func: fname, Props: []string{p}, Status: "unbound", Clause: "trusted contract refers to a function that does not exist", Pos: fmt.Sprintf("%s:%d", c.File, c.Line)})
 			}
 			continue
